@@ -576,14 +576,15 @@ def kernel_summary(F, sigma):
     return segs, carried, where
 
 
-def r07e(ck, prog):
+def r07e(ck, prog, kinds=None, sufs=("foward", "backward")):
     """the three kernels compute the same recurrence: for each pass (forward / backward) and each border situation,
     every straight-line piece of the pass - first row, start of a row, interior cell, last cell - leaves the same
     max-plus value in every DP cell and carried local, after mapping each kernel's penalty source to its class
     (open / extension / terminal) and its score source to S"""
     import itertools
     preds = ("startb!=0", "endb!=len_b")
-    for suf in ("foward", "backward"):
+    KINDS_ = kinds or globals()["KINDS_"]
+    for suf in sufs:
         sums = {}
         wheres = {}
         carried = set()
@@ -781,6 +782,19 @@ def r07f(ck, prog):
 KINDS_ = ("aln_seqseq_", "aln_seqprofile_", "aln_profileprofile_")
 
 
+def _r07e_controls(ck):
+    """the same rule code on /verif/controls/c07.c: one recurrence written three ways must agree; a kernel that charges the
+    extension penalty where its siblings charge the open penalty must be reported"""
+    from ..controls import control_program
+    from ..report import Check
+    cp = control_program(ck.work, "c07.c")
+    for tag, expect in (("ok", False), ("bad", True)):
+        sub = Check(ck.prop, ck.tier, ck.seed)
+        sub.known = {}
+        r07e(sub, cp, kinds=tuple("%s_r07e_%s_" % (tag, x) for x in "abc"), sufs=("fwd",))
+        ck.control("R07e", "%s_r07e_{a,b,c}_fwd" % tag, bool(sub.violations), expect)
+
+
 def run(ck, progs):
     describe(ck)
     ck.rule("R07e", "the three forward kernels implement one recurrence and the three backward kernels one: every straight-line piece leaves the same max-plus normal form in every DP cell and carried local (penalties mapped to open/extension/terminal classes, scores to S)")
@@ -795,6 +809,7 @@ def run(ck, progs):
         ck.attempt(r07c, ck, prog)
         ck.attempt(r07d, ck, prog)
         ck.attempt(r07e, ck, prog)
+        ck.attempt(_r07e_controls, ck)
         ck.attempt(r07f, ck, prog)
         ck.attempt(r07g, ck, prog)
         before = len(ck.instances)
